@@ -377,7 +377,26 @@ Definition wf_case (c : case) : bool :=
   | _ => true
   end.
 
+(** A non-zero return smaller than 1e-6 in magnitude is outside the property's arithmetic domain:
+    rust_decimal keeps 28 decimal places, so such a quotient has fewer than 22 significant digits
+    and below 1e-28 it underflows to 0, which flips its win / break-even classification and the
+    zero / non-zero conventions of the profit factor (eg/ a rounding residue pnl = 1.67e-22 on a
+    cost of 6.25e6: exact return 2.7e-29, Decimal return 0).  "Up to decimal rounding" cannot be
+    judged there; such cases (they arise from rounding residues of Position::update_from_trade
+    after flips) are not judged at all. *)
+Definition ret_min : Q := 1 # 1000000.
+Definition ret_in_range (p : pos_in) : bool :=
+  let r := uq (pnl_return (pos_of p)) in Qeq_bool r 0 || Qle_bool ret_min (Qabs' r).
+Definition in_range_case (c : case) : bool :=
+  match c with
+  | CSheet _ ps _ _ _ => forallb ret_in_range ps
+  | CSummary _ _ _ _ ops _ _ _ => forallb ret_in_range (all_pos ops)
+  | _ => true
+  end.
+
 (** outside the input requirements only model agreement is judged (the panic is reproduced) *)
 Definition judge (c : case) : N :=
-  if wf_case c then judge_code (corr_b c) (prop_b c) 0
-  else judge_code (corr_b c) true 0.
+  if in_range_case c then
+    if wf_case c then judge_code (corr_b c) (prop_b c) 0
+    else judge_code (corr_b c) true 0
+  else 0%N.
